@@ -643,7 +643,7 @@ class Interp:
                 else: s.store(p2, v[i], s.size(e2))
         else: raise Unsupported('store agg %r' % ty)
     def gep_sym(s, sty, base, idxs):
-        if getattr(s, 'table_ite', False) and sum(1 for i in idxs if is_sym(i)) == 1 and isinstance(base, Ptr) and s.objs[base.obj].name.startswith('@'):
+        if (getattr(s, 'sym_ptr_any', False) or (getattr(s, 'table_ite', False) and isinstance(base, Ptr) and s.objs[base.obj].name.startswith('@'))) and sum(1 for i in idxs if is_sym(i)) == 1 and isinstance(base, Ptr):
             # constant lookup table indexed by a symbolic value: keep the index symbolic (load builds an ite chain)
             k = [n for n, i in enumerate(idxs) if is_sym(i)][0]
             p0 = s.gep(sty, base, [0 if n == k else i for n, i in enumerate(idxs)])
